@@ -59,7 +59,7 @@ theorem SRel.matchCellRight (h : SRel Q cx β σ σ') {a : Nat} {v v' : Val N} (
     strlib := h.strlib
     ginv := by ginv_tac h
     finv := by finv_tac h
-    front := by front_tac h
+    front := by frontU_tac h
     pin := h.pin
     pinR := h.pinR
     pinT := h.pinT
@@ -114,7 +114,7 @@ theorem SRel.matchCellLeft (h : SRel Q cx β σ σ') {b : Nat} {v v' : Val N} (h
     strlib := h.strlib
     ginv := by ginv_tac h
     finv := by finv_tac h
-    front := by front_tac h
+    front := by frontU_tac h
     pin := h.pin
     pinR := h.pinR
     pinT := h.pinT
